@@ -44,6 +44,12 @@ def parseOp (t : Table) (s : String) : Option Op :=
   if s == "f" then some .flushReq
   else if s == "i" then some .flushIfNeeded
   else if s == "p" then some .flushPeriodic
+  else if s.startsWith "h" then do
+    let id ← (s.drop 1).toString.toNat?
+    if id == 0 then none else
+    match t.lookup id with
+    | some (b :: p) => some (.header b p)
+    | _ => none
   else if s.startsWith "d" then do
     let id ← (s.drop 1).toString.toNat?
     if id == 0 then none else
